@@ -15,6 +15,7 @@ SER_TRUST = [
 
 class C07(Prop):
     id = 'C07'
+    also_release = True
     module = 'Cbor.Props.C07'
     theorems = ['Props.C07.C07_serialize', 'Props.C07.C07_size', 'Props.C07.C07_size_overflow', 'Props.C07.C07_alloc', 'Props.C07.C07_alloc_overflow',
                 'Props.C07.C07_encoders', 'Props.C07.encoder_frame', 'Props.C07.C07_encoders_safe', 'Lemmas.Ser.ser_item', 'Lemmas.Ser.size_spec']
